@@ -250,7 +250,7 @@ def drive(cfg, observers=True, post_calls=3):
         out = {}
         for t in (RAM, DISK, WORK, NONE):
             try:
-                out[t] = sched.uses_storage_type(t)
+                out[t] = bool(sched.uses_storage_type(t))
                 # ... and by the documented parameter name
                 kw = sched.uses_storage_type(storage_type=t)
                 if bool(kw) != bool(out[t]):
@@ -296,6 +296,8 @@ def drive(cfg, observers=True, post_calls=3):
                          f"max_n={sched.max_n}, expected {want}", -1)
 
     finalised = not online
+    max_actions = min(MAX_ACTIONS,
+                      60 * (N + 2) ** 2 * max(1, cfg.passes) + 1000)
     passes_wanted = cfg.passes
     permitted = info.passes
     pass_start = None
@@ -309,10 +311,13 @@ def drive(cfg, observers=True, post_calls=3):
                 and (permitted is None or M.passes_done < permitted) \
                 and M.passes_done > 0:
             break   # repeatable class: we asked for `passes` calculations
-        if len(run.actions) >= MAX_ACTIONS:
+        if len(run.actions) >= max_actions:
             run.obs_fail(["C02", "C17"], "no_termination",
-                         f"{MAX_ACTIONS} actions without conclusion")
+                         f"{max_actions} actions without conclusion (generous "
+                         "bound: 60*(N+2)^2 per pass)")
             break
+        if len(run.failures) + len(run.obs) > 200:
+            break       # hopeless stream: enough has been recorded
         was_final = finalised
         try:
             with common.quiet():
